@@ -450,6 +450,7 @@ fn treat(out: &mut Out, fx: &mut Fixture, kind: &str, text: &str, plan: &Logical
     let mut afters: Vec<(u32, Option<String>)> = vec![];
     let mut reference: Option<(String, Outcome)> = None;
     let mut diffs: Vec<String> = vec![];
+    let mut bad: Vec<u32> = vec![];
     for st in 0..3 {
         for m in 0..8u32 {
             let base = match st {
@@ -471,8 +472,13 @@ fn treat(out: &mut Out, fx: &mut Fixture, kind: &str, text: &str, plan: &Logical
             match &reference {
                 None => reference = Some((c, outcome)),
                 Some((rc, _)) => {
-                    if *rc != c && diffs.len() < 3 {
-                        diffs.push(format!("switches={m} stats={} -> {}", ["fresh", "stale", "absent"][st], &c[..c.len().min(300)]));
+                    if *rc != c {
+                        if !bad.contains(&m) {
+                            bad.push(m);
+                        }
+                        if diffs.len() < 3 {
+                            diffs.push(format!("switches={m} stats={} -> {}", ["fresh", "stale", "absent"][st], &c[..c.len().min(300)]));
+                        }
                     }
                 }
             }
@@ -523,11 +529,17 @@ fn treat(out: &mut Out, fx: &mut Fixture, kind: &str, text: &str, plan: &Logical
         case.oracle = Oracle::Fail;
         case.msg = format!("reference (no rewrites, fresh statistics): {} ;; differing: {}", &ref_canon[..ref_canon.len().min(300)], diffs.join(" ;; "));
         if let (Some(b), Some(a)) = (&before, &afters_coq) {
-            // the class is decided in Coq: `k_class_g` = 0 (none) | 1 | 2 | 4 | 5; checks/c09.py turns the
+            // the class is decided in Coq: `k_class_cfg` = 0 (not every differing switch combination is excused) | 1 | 2 | 4 | 5; checks/c09.py turns the
             // number into the finding id before the standard decision procedure runs
             case.kid = Some("C09-K?".into());
             let _ = b;
-            case.kcoq = Some(format!("{}k_class_g {} pb {}", lets, g, a));
+            case.kcoq = Some(format!(
+                "{}k_class_cfg {} pb {} {}",
+                lets,
+                g,
+                a,
+                coq::list(bad.iter().map(|m| coq::nat(*m as usize)))
+            ));
         }
         tags.push("oracle-fail".into());
     }
@@ -679,7 +691,7 @@ impl<'a> QGen<'a> {
         *self.r.pick(&["v", "v", "w", "u"])
     }
     fn atom(&mut self) -> String {
-        let k = self.r.below(12);
+        let k = self.r.below(13);
         let pick_node = |s: &mut Self| s.nodes[s.r.below(s.nodes.len() as u64) as usize].name.clone();
         match k {
             0..=3 => {
@@ -712,6 +724,19 @@ impl<'a> QGen<'a> {
             9 => {
                 let x = pick_node(self);
                 format!("{}.s = '{}'", x, self.r.pick(&["x", "y"]))
+            }
+            12 => {
+                // expressions outside the modelled core (function calls, CASE): such a case is checked by
+                // the 24-run oracle only; they exercise the other arms of collect_variables
+                let x = pick_node(self);
+                let y = pick_node(self);
+                self.tags.push("atom-unmodelled".into());
+                match self.r.below(4) {
+                    0 => format!("coalesce({}.w, 0) {} {}", x, self.cmp(), self.r.range(0, 2)),
+                    1 => format!("toString({}.v) = '{}'", x, self.r.range(0, 3)),
+                    2 => format!("CASE WHEN {}.v > {}.w THEN true ELSE false END", x, y),
+                    _ => format!("id({}) <> id({})", x, y),
+                }
             }
             10 => {
                 let x = pick_node(self);
@@ -1016,7 +1041,7 @@ fn gen_plan(r: &mut Rng) -> (LogicalPlan, String, Vec<String>) {
         tags.push("limit".into());
     }
     // an operator that stops a filter, with a filter above it
-    if r.chance(1, 6) {
+    if r.chance(1, 4) {
         op = match r.below(3) {
             0 => {
                 tags.push("filter-above-limit".into());
@@ -1032,7 +1057,7 @@ fn gen_plan(r: &mut Rng) -> (LogicalPlan, String, Vec<String>) {
             }
         };
         let x = r.pick(&vs).clone();
-        op = filter(bin(prop(&x, "v"), *r.pick(&[BinaryOp::Gt, BinaryOp::Le]), int(r.range(0, 2))), op);
+        op = filter(bin(prop(&x, "v"), *r.pick(&[BinaryOp::Gt, BinaryOp::Le]), int(r.range(0, 1))), op);
     } else if r.chance(1, 6) {
         op = LogicalOperator::Distinct(DistinctOp { input: Box::new(op), columns: None });
         tags.push("distinct".into());
